@@ -149,6 +149,34 @@ impl Arith {
         let q = self.tier == Tier::Quick;
         let w = hv::GROUP_WIDTH;
         let mut detail = serde_json::Map::new();
+        // 0. TableLayout::new for element types of every size / alignment class: the element size is the type's
+        //    size, the control bytes are aligned to max(element alignment, group width) - aligned group loads
+        //    and the allocator's layout depend on exactly that
+        {
+            #[repr(align(32))]
+            #[allow(dead_code)]
+            struct A32x(u8);
+            #[repr(align(64))]
+            #[allow(dead_code)]
+            struct A64x([u8; 65]);
+            #[repr(align(4096))]
+            #[allow(dead_code)]
+            struct Page(u8);
+            let mut n = 0u64;
+            macro_rules! lay {
+                ($($t:ty),*) => {$(
+                    let (size, ca) = hv::table_layout_of::<$t>();
+                    let (ws, wa) = (std::mem::size_of::<$t>(), std::mem::align_of::<$t>().max(w));
+                    if (size, ca) != (ws, wa) {
+                        return Err(format!("TableLayout::new::<{}>() = (size {size}, ctrl_align {ca}), expected (size {ws}, ctrl_align {wa} = max(align_of, group width))", stringify!($t)));
+                    }
+                    n += 1;
+                )*};
+            }
+            lay!((), u8, u16, [u8; 3], u32, [u8; 5], [u16; 3], u64, [u8; 15], [u8; 16], [u8; 17], [u16; 9], [u32; 5], (u64, [u64; 2]), [u64; 3], u128, [u128; 2],
+                 (u8, u128), [u8; 200], [u64; 25], A32x, A64x, Page, [A32x; 3], (A64x, u8), [u16; 0], [u128; 0], [A32x; 0]);
+            detail.insert("table_layouts_checked".into(), json!(n));
+        }
         // 1. capacity_to_buckets, exhaustive low range
         let top: u64 = if q { 1 << 24 } else { 1 << 32 };
         let mut evals = 0u64;
